@@ -10,6 +10,7 @@ from .lp import PiecewiseConvex, PWConstr, ExpPWConstr, DecLMIConstr
 from .lp import Scen
 from .lp import Solution, def_sol, check_curvature
 from .subroutines import event_dict
+import copy
 import numpy as np
 import pandas as pd
 import scipy.sparse as sp
@@ -685,6 +686,26 @@ class Model:
         return ro_constr
 
     def dro_to_roc(self, constr):
+
+        if not isinstance(constr, ExpPWConstr):
+            sense = np.array([constr.sense]).flatten()
+            if sense.any():
+                # an equality of expectations: both inequalities
+                lower = copy.copy(constr)
+                upper = copy.copy(constr)
+                if isinstance(constr, DecLinConstr):
+                    rows = np.where(sense == 1)[0]
+                    upper.sense = np.zeros(sense.size)
+                    lower.linear = - constr.linear[rows]
+                    const = np.array(constr.const).flatten()
+                    lower.const = - const[rows]
+                    lower.sense = np.zeros(rows.size)
+                else:
+                    upper.sense = 0
+                    lower.sense = 0
+                    lower.raffine = - constr.raffine
+                    lower.affine = - constr.affine
+                return self.dro_to_roc(upper) + self.dro_to_roc(lower)
 
         drule_list = self.rule_var()
         num_var = self.vt_model.vars[-1].last
